@@ -119,3 +119,30 @@ Theorem C01_mpfixed_round_spec : forall nmin rm sp nz x rb,
     (f_inexact f = false <-> R2R y = R2R x) /\ f_overflow f = false.
 Proof. exact mpfixed_round_spec. Qed.
 Print Assumptions C01_mpfixed_round_spec.
+
+(* bounded fixed point: overflow rule incl. WRAP = the ordinal congruent modulo the number of values *)
+Theorem C01_mpbfixed_round_spec : forall nmin pos_max neg_max rm ov sp nz x rb,
+  rf_wf x -> rc x <> 0 ->
+  rf_wf pos_max -> rf_wf neg_max -> rs pos_max = false -> (rs neg_max = true \/ rc neg_max = 0) ->
+  let r := round radix2 (FIX_exp (nmin + 1)) (rnd_of rm) (R2R x) in
+  exists y f0, rf_round x None (Some nmin) rm false = Ok (y, f0) /\ R2R y = r /\
+  (in_range pos_max neg_max r ->
+     exists y' f, round_mpbfixed nmin pos_max neg_max rm ov (Some 0) sp nz (FFin x) None rb = Ok (FFin y', f) /\
+       R2R y' = r /\ (f_inexact f = false <-> R2R y' = R2R x) /\ f_overflow f = false) /\
+  (~ in_range pos_max neg_max r ->
+     round_mpbfixed nmin pos_max neg_max rm ov (Some 0) sp nz (FFin x) None rb =
+     overflow_result_fixed nmin pos_max neg_max rm ov sp (rs x) y).
+Proof. exact mpbfixed_round_spec. Qed.
+Print Assumptions C01_mpbfixed_round_spec.
+
+Theorem C01_wrap_ordinal_spec : forall o neg_ord pos_ord,
+  neg_ord <= pos_ord ->
+  let total := pos_ord - neg_ord + 1 in
+  let o' := (o - neg_ord) mod total + neg_ord in
+  neg_ord <= o' <= pos_ord /\ (o' - o) mod total = 0.
+Proof. exact wrap_ordinal_spec. Qed.
+Print Assumptions C01_wrap_ordinal_spec.
+
+Theorem C01_fixed_ordinal_roundtrip : forall nmin o, fixed_to_ordinal nmin (fixed_from_ordinal nmin o) = o.
+Proof. exact fixed_ordinal_roundtrip. Qed.
+Print Assumptions C01_fixed_ordinal_roundtrip.
